@@ -251,8 +251,12 @@ class BarrierScenario(Scenario):
 
     def setup(self, env: Env) -> None:
         same = bool(self.params.get('same_names'))    # objects of different kinds may well share their names
+        two_ns = bool(self.params.get('two_namespaces'))    # the operator serves two namespaces by name: one watch (and one listing) per kind AND namespace
+        if two_ns:
+            env.world.create(NAMESPACES, None, 'ns', {})
+            env.world.create(NAMESPACES, None, 'ns2', {})
         for i in range(self.params['n1']):
-            env.world.create(KEX, 'ns', f'o{i}' if same else f'x{i}', {'spec': {'x': i}})
+            env.world.create(KEX, 'ns2' if two_ns and i % 2 else 'ns', f'o{i}' if same else f'x{i}', {'spec': {'x': i}})
         for i in range(self.params['n2']):
             env.world.create(KEX2, 'ns', f'o{i}' if same else f'w{i}', {'spec': {'w': i}})
         reg = kopf.OperatorRegistry()
@@ -297,7 +301,10 @@ class BarrierScenario(Scenario):
         kopf.daemon(handled, id='dm', registry=reg)(dm)
         if self.params.get('handlers_on_second'):
             kopf.on.create('kopfwidgets', id='c2', registry=reg)(c1)
-        self.op = Operator(env, 'A', reg, make_settings())
+        if two_ns:
+            self.op = Operator(env, 'A', reg, make_settings(), clusterwide=False, namespaces=['ns', 'ns2'])
+        else:
+            self.op = Operator(env, 'A', reg, make_settings())
         self.op.start()
 
     def script(self, env: Env) -> list[UserAction]:
@@ -352,6 +359,9 @@ def run(tier: str, seed: int) -> CheckResult:
                 for n1, n2, slow1 in [(1, 1, 0), (2, 2, 0), (2, 1, 1.0)]]
     barrier += [BarrierScenario(n1=n1, n2=n2, slow_index=0, slow_index2=slow2, handlers_on_second=False, only_second_indexed=True)
                 for n1, n2, slow2 in [(1, 1, 0), (2, 2, 0), (1, 2, 1.0)]]
+    # one indexed kind served in two namespaces (two listings of the same kind, ending at different times)
+    barrier += [BarrierScenario(n1=n1, n2=n2, slow_index=slow, handlers_on_second=False, two_namespaces=True) for n1, n2, slow in [(2, 0, 0), (2, 1, 0), (3, 0, 1.0), (4, 1, 0)]]
+    barrier += [BarrierScenario(n1=2, n2=0, slow_index=0, handlers_on_second=False, two_namespaces=True, only_first_indexed=True)]
     if tier == 'quick':
         groups = [('index-histories-2-objects', hist2, 0, 60.0), ('index-histories-3-objects', hist3, 0, 30.0), ('barrier', barrier, 2, 50.0)]
     else:
